@@ -54,12 +54,21 @@ func c16Render(p *c16Prog) string {
 		items = append(items, fmt.Sprint(it))
 	}
 	fmt.Fprintf(&sb, "items = [%s]\n", strings.Join(items, ", "))
-	if p.Producer == 0 {
+	switch p.Producer {
+	case 0:
 		sb.WriteString("go func() { for x in items { c0 <- x }; close(c0) }()\n")
-	} else {
+	case 1:
 		sb.WriteString("go func() { for i = 0; i < len(items); i++ { c0 <- items[i] }; close(c0) }()\n")
+	case 2: // go call of a variadic function with a spread argument
+		sb.WriteString("func produce(ch, xs...) { for x in xs { ch <- x }; close(ch) }\ngo produce(c0, items...)\n")
+	case 3: // go call with ordinary arguments, evaluated by the caller
+		sb.WriteString("func produce(ch, xs) { for x in xs { ch <- x }; close(ch) }\ngo produce(c0, items)\nitems = [-999]\n")
 	}
 	for i, s := range p.Stages {
+		if p.Producer >= 2 && i%2 == 0 {
+			fmt.Fprintf(&sb, "func stage%d(cin, cout) { for x in cin { cout <- %s }; close(cout) }\ngo stage%d(c%d, c%d)\n", i, c16FunSrc[s.F], i, i, i+1)
+			continue
+		}
 		fmt.Fprintf(&sb, "go func() { for x in c%d { c%d <- %s }; close(c%d) }()\n", i, i+1, c16FunSrc[s.F], i+1)
 	}
 	last := len(p.Stages)
@@ -78,7 +87,7 @@ func c16Render(p *c16Prog) string {
 
 func c16Run(src string) string {
 	e := env.NewEnv()
-	ctx, cancel := context.WithTimeout(context.Background(), 10*time.Second)
+	ctx, cancel := context.WithTimeout(context.Background(), 4*time.Second)
 	defer cancel()
 	type out struct {
 		v   interface{}
@@ -119,7 +128,7 @@ func c16Run(src string) string {
 			}
 		}
 		return "(" + strings.Join(p, " ") + ")"
-	case <-time.After(12 * time.Second):
+	case <-time.After(6 * time.Second):
 		return "TIMEOUT"
 	}
 }
@@ -139,9 +148,10 @@ func c16Main(seed uint64, n int, outDir string) error {
 		return err
 	}
 	defer sx.Close()
-	for i := 0; i < n; i++ {
+	stuck := 0
+	for i := 0; i < n && stuck < 6; i++ {
 		p := &c16Prog{Cap0: []int{0, 0, 1, 2, 5}[rnd.Intn(5)], Elem: []string{"int64", "int64", "interface", "float64"}[rnd.Intn(4)],
-			Consumer: rnd.Intn(3), Producer: rnd.Intn(2)}
+			Consumer: rnd.Intn(3), Producer: rnd.Intn(4)}
 		ns := rnd.Intn(5)
 		for j := 0; j < ns; j++ {
 			p.Stages = append(p.Stages, c16Stage{F: rnd.Intn(5), Cap: []int{0, 0, 1, 3}[rnd.Intn(4)]})
@@ -157,7 +167,12 @@ func c16Main(seed uint64, n int, outDir string) error {
 		p.Src = c16Render(p)
 		for r := 0; r < runsPer; r++ {
 			runtime.GOMAXPROCS(procs[(i+r)%len(procs)])
-			p.Runs = append(p.Runs, c16Run(p.Src))
+			out := c16Run(p.Src)
+			p.Runs = append(p.Runs, out)
+			if strings.HasPrefix(out, "error") || out == "TIMEOUT" {
+				stuck++
+				break // one run that does not finish is enough for this program
+			}
 		}
 		var st, it []string
 		for _, s := range p.Stages {
